@@ -86,6 +86,15 @@ Qed.
 
 (** ** the tree invariant (C03) *)
 Definition is_dir (s : gmap path memfile) (p : path) : Prop := exists d, s !! p = Some d /\ f_type d = Dir.
+Global Instance is_dir_dec (s : gmap path memfile) (p : path) : Decision (is_dir s p).
+Proof.
+  unfold is_dir. destruct (s !! p) as [d|] eqn:E.
+  - destruct (f_type d) eqn:Ht.
+    + right. intros (d' & Hd & Hdt). congruence.
+    + left. eauto.
+  - right. intros (d' & Hd & _). congruence.
+Defined.
+
 Definition parent_closed (s : gmap path memfile) : Prop :=
   forall p n f, s !! (p ++ [n]) = Some f -> is_dir s p.
 Definition wf (s : gmap path memfile) : Prop := is_dir s [] /\ parent_closed s.
